@@ -1,7 +1,8 @@
 (* C04, the TRANSLATED decoder against the specification parser on EVERY text up to a length (the bound is part of the
    statement): whenever Model/C04.v `parse` reads a text as the tree t, the interpretation of the translated decoder
-   writes exactly `enc t`.  Two alphabets: structure (braces, brackets, colon, comma, semicolon, both quotes, backslash, 1, a, B and space; length <= 6) and numbers
-   ([],;-12bsLBI and space, length <= 5).  Floats do not occur (no '.'), so the float oracles are irrelevant. *)
+   writes exactly `enc t`.  Two alphabets: structure (braces, brackets, colon, comma, semicolon, both quotes, backslash, 1, a, B and space; length <= 5) and numbers
+   ([],;-12bsLBI and space, length <= 4).  The bounds are kept where the independent checker (coqchk, which does not use
+   the virtual machine) re-checks the sweeps in minutes.  Floats do not occur (no '.'), so the float oracles are irrelevant. *)
 From Coq Require Import List ZArith NArith Bool Lia.
 From GoMC Require Import Model.C04_dsyntax Model.C04_dec Gen.Decoder Proofs.C04_dec.
 From GoMC Require Model.C04.
@@ -19,22 +20,22 @@ Definition agree (text : list Z) : bool :=
   | None => true
   end.
 
-Lemma sweep1 : checkp agree alpha1 6 [] = true.
+Lemma sweep1 : checkp agree alpha1 5 [] = true.
 Proof. vm_cast_no_check (eq_refl true). Qed.
-Lemma sweep2 : checkp agree alpha2 5 [] = true.
+Lemma sweep2 : checkp agree alpha2 4 [] = true.
 Proof. vm_cast_no_check (eq_refl true). Qed.
 
 Theorem decoder_agrees_short (text : list Z) (t : C04.tag) :
-  ((length text <= 6)%nat /\ Forall (fun c => In c alpha1) text) \/
-  ((length text <= 5)%nat /\ Forall (fun c => In c alpha2) text) ->
+  ((length text <= 5)%nat /\ Forall (fun c => In c alpha1) text) \/
+  ((length text <= 4)%nat /\ Forall (fun c => In c alpha2) text) ->
   C04.parse nopfs nopfs (map Z.to_N text) = Some t ->
   decode_text nopf decoder_prog text = DOk (map Z.of_N (C04.enc t)).
 Proof.
   intros H P.
   assert (A : agree text = true).
   { destruct H as [[L F]|[L F]].
-    - exact (checkp_sound agree alpha1 6 [] sweep1 text L F).
-    - exact (checkp_sound agree alpha2 5 [] sweep2 text L F). }
+    - exact (checkp_sound agree alpha1 5 [] sweep1 text L F).
+    - exact (checkp_sound agree alpha2 4 [] sweep2 text L F). }
   unfold agree in A. rewrite P in A. destruct (decode_text nopf decoder_prog text); try discriminate A.
   f_equal. apply zeqb_eq, A.
 Qed.
